@@ -18,7 +18,8 @@ One definition per Go function, quirks included:
   the directory chain was made, and finally REPLACES the whole subtree of the symbol by a fresh
   `NewDirectory` of the symbol's directory.
 * `load` registers a sub-directory without `category_name` as an empty Directory (it is listed as
-  an item of its parent but has no content).
+  an item of its parent but has no content), and forgets the year files met before a sub-directory
+  of the same directory (`d.datafile = nil` in the `ReadDir` loop).
 * `RemoveTimeBucket` removes the last item's directory from disk, then walks up removing every
   level whose in-memory Directory has no sub-directories left; `removeSubDir` deletes only the
   `directMap` entry of the removed directory itself (deeper entries stay: a key with fewer than
@@ -68,12 +69,22 @@ def visibleAux (d : Dir) (p : Path) : Nat → Bool
 
 def visible (d : Dir) (p : Path) : Bool := visibleAux d p p.length
 
+/-- names of the sub-directories of `p` -/
+def childNames (d : Dir) (p : Path) : List String :=
+  (d.filter (fun e => e.1.length = p.length + 1 && isPre p e.1)).map (fun e => e.1.getLastD "")
+
+/-- `load` walks `os.ReadDir` (sorted by name) and executes `d.datafile = nil` at every
+    sub-directory: a year file whose name sorts before some sub-directory's name is forgotten -/
+def keepFiles (d : Dir) (p : Path) (files : List (Int × Nat)) : List (Int × Nat) :=
+  files.filter (fun f => (childNames d p).all (fun c => decide (c < toString f.1 ++ ".bin")))
+
 /-- what `load` records for a directory: nothing but its name when `category_name` is missing -/
-def norm (r : Rec) : Rec := if r.cat.isSome then r else emptyRec
+def norm (d : Dir) (p : Path) (r : Rec) : Rec :=
+  if r.cat.isSome then { r with files := keepFiles d p r.files } else emptyRec
 
 /-- `NewDirectory(root)`: the catalog tree that a (re)start builds from the directory tree -/
 def load (d : Dir) : Dir :=
-  d.filterMap (fun e => if visible d e.1 then some (e.1, norm e.2) else none)
+  d.filterMap (fun e => if visible d e.1 then some (e.1, norm d e.1 e.2) else none)
 
 /-! ## state -/
 
